@@ -54,7 +54,7 @@ PROBES = {"clone-not-registered-in-namespace": probe_clone_namespace}
 
 def plan(tier):
     if tier == "thorough":
-        return {"cases": 16 * 250, "shards": 16, "shard_budget_s": 1500, "watchdog_s": 2400}
+        return {"cases": 16 * 100, "shards": 16, "shard_budget_s": 1500, "watchdog_s": 2400}
     return {"cases": 100, "shards": 4, "shard_budget_s": 240, "watchdog_s": 600}
 
 
